@@ -3,6 +3,7 @@ package props
 import (
 	"fmt"
 	"go/token"
+	"go/types"
 
 	"mrocheck/an"
 
@@ -357,5 +358,72 @@ func ruleT6(c *an.Ctx) {
 	if n == 0 {
 		c.Pass("T6", "binding-tables-not-read-during-sort@(*Pipeline).topoSort", sortFn.Pos(),
 			fmt.Sprintf("no function reachable from the sort reads BindStms.Table; premise holds in %d caller(s): the sort precedes every call that builds the tables", drivers))
+	}
+}
+
+// T7 / Q11: the in-place topological sort re-examines the slot it just filled.  Pipeline.topoSort
+// keeps a prefix of pipeline.Calls sorted; when the call at the current index depends on a later
+// call it is moved down (the slice section is shifted with copy and the call re-inserted) and a
+// DIFFERENT call now sits at the current index, which has not been examined yet.  Advancing the
+// index on that path skips it: a call can stay ahead of one it depends on, so (C07) a reference to
+// a later-declared mapped call is typed with the parser's placeholder and (C09) the formatter's
+// output is not in dependency order and not a fixed point.
+// Rule: in the loop of topoSort (or a private helper) that contains the shifting copy(), the back
+// edge taken after the copy does not carry index+1 into the loop's index phi.
+func ruleTopoIndex(c *an.Ctx, rule string) {
+	p := c.P
+	ts := c.NeedFunc(pkgSyntax, "(*Pipeline).topoSort")
+	if ts == nil {
+		return
+	}
+	n := 0
+	for _, fn := range familyOf(p, ts, 2) {
+		for hd, body := range naturalLoops(fn) {
+			// the shifting copy, directly in this loop (not in an inner loop's own body only)
+			var copies []ssa.Instruction
+			for b := range body {
+				for _, in := range b.Instrs {
+					if v, ok := in.(ssa.Value); ok {
+						if _, isCopy := an.IsBuiltinCall(v, "copy"); isCopy {
+							copies = append(copies, in)
+						}
+					}
+				}
+			}
+			if len(copies) == 0 {
+				continue
+			}
+			for _, in := range hd.Instrs {
+				phi, ok := in.(*ssa.Phi)
+				if !ok {
+					break
+				}
+				if b, isB := phi.Type().Underlying().(*types.Basic); !isB || b.Info()&types.IsInteger == 0 {
+					continue
+				}
+				for i, pred := range hd.Preds {
+					if !body[pred] {
+						continue
+					}
+					inc, isInc := phi.Edges[i].(*ssa.BinOp)
+					if !isInc || inc.Op != token.ADD || !((inc.X == ssa.Value(phi) && an.IsIntConst(inc.Y, 1)) || (inc.Y == ssa.Value(phi) && an.IsIntConst(inc.X, 1))) {
+						continue
+					}
+					// is this incrementing back edge reachable from the copy without passing the header?
+					for _, cp := range copies {
+						n++
+						last := pred.Instrs[len(pred.Instrs)-1]
+						w := an.Query{Fn: fn, After: cp, Target: func(x ssa.Instruction) bool { return x == last },
+							BarrierEdge: func(from, to *ssa.BasicBlock) bool { return to == hd || !body[to] }}.Find()
+						reach := w != nil || cp.Block() == pred
+						c.Check(rule, "slot-refilled-by-a-move-is-examined-again@"+an.FnName(fn), cp.Pos(), !reach,
+							"after a call has been moved down (the copy that shifts the slice), the loop index is incremented before the next iteration: the call that was shifted into the current slot is never examined and can stay ahead of a call it depends on")
+					}
+				}
+			}
+		}
+	}
+	if n == 0 {
+		c.Pass(rule, "no-incrementing-back-edge-after-the-shift@(*Pipeline).topoSort", ts.Pos(), "no back edge that increments an index is reachable from a shifting copy (or the sort no longer shifts in place)")
 	}
 }
